@@ -302,6 +302,18 @@ def run(chk):
             if _re.search(r"[~-]\s*[(~!-]", show(e)):
                 sig = "folded-complement-width"
             chk.fail(sig, "`v = %s;` stores %d, C says %d" % (show(e), got, want), {"source": src, "stored": got, "C": want})
+    # ---- comparisons of two constants folded by the statement generator, in every position it accepts them
+    #      (plain value, ?:, !, left operand of && / ||), for a < b, a == b, a > b: tools/matrix.py ----
+    import matrix, csemx, gen_c
+    for p in matrix.all_programs(["folded"]):
+        for level in (0, 1):
+            r = h.compile(p.text, level)
+            chk.count("folded_comparison_statements")
+            if r["status"] != "ok":
+                chk.count("folded_comparison_" + r["status"]); break
+            chk.case(key=(p.text, level), nontrivial=True)
+            csemx.check_compiled(chk, m, p.text, p, r, "c10m", 1, seed=1, level=level,
+                                 sig_fn=lambda kind: "folded-comparison-" + kind)
     h.close(); m.close()
     return chk.finish(level="proof", obligations=obligations, trusted_base=TRUSTED,
                       checker_cmd="cd /verif/lean && lake build CV.Props.C10 && lake env lean .lake/audit/C10_audit.lean",
